@@ -751,7 +751,7 @@ _CORES = {
     "frame": (_FRAME_CORE, "frame core: a frame change of a state (or of its covariance) runs Frame.transform, the centre and orientation chains and the Earth-rotation models",
               ["C02", "C04", "C06", "C07", "C08", "C09", "C10", "C11", "C12", "C13", "C14", "C15", "C17", "C18", "C19", "C20"]),
 }
-# wave p (the third "outside the anchored files" wave, 17 of 20 caught on receipt) left two holes of the same kind:
+# wave p (the third "outside the anchored files" wave, 16 of 19 caught on receipt) left two holes of the same kind:
 #  - a pickled state carries its Date, so the Date's own pickling hooks decide whether "pickling preserves values and metadata"
 #    (C15) - the time core is attached to C15 as well;
 #  - the moving origin and axes of an orbit-attached or body-centred frame are whatever `propagate(date)` of the reference
